@@ -145,6 +145,12 @@ structure St where
   rawL : List Htlc := []
   rawR : List Htlc := []
   rawP : List Htlc := []
+  /-- watcher cases: the three commitments as dumped from the channel state before the spend -/
+  dumpL : List Htlc := []
+  dumpR : List Htlc := []
+  dumpP : List Htlc := []
+  /-- watcher cases: the commitment the harness really spent -/
+  spent : Option SetKey := none
   fwd : List Nat := []
   pre : List Nat := []
   arb : Arb := {}
@@ -191,6 +197,11 @@ structure St where
   preBroadcastFailWithOutput : Nat := 0
   breachDuplicateFails : Nat := 0
   unitMonitorChecks : Nat := 0
+  watcherCases : Nat := 0
+  watcherSpentLocal : Nat := 0
+  watcherSpentRemote : Nat := 0
+  watcherSpentPending : Nat := 0
+  watcherDiffering : Nat := 0
 
 def St.env (s : St) : Env :=
   { preimageKnown := fun h => s.pre.contains h, isForwarded := fun i => s.fwd.contains i,
@@ -200,6 +211,22 @@ def St.sets (s : St) : Sets :=
   { loc := newHtlcSet s.rawL, rem := newHtlcSet s.rawR, pend := newHtlcSet s.rawP }
 
 def St.wf (s : St) : Bool := Mon.wellFormed s.rawL s.rawR s.rawP
+
+/-- for watcher cases the monitor judges the outcome against the HTLC sets dumped from the channel
+    state, not against what the watcher dispatched. -/
+def St.truth (s : St) : St :=
+  if s.kind == "watcher" then { s with rawL := s.dumpL, rawR := s.dumpR, rawP := s.dumpP } else s
+
+/-- copy the counters of `t` (a run on `s.truth`) back, keeping `s`'s HTLC sets. -/
+def St.untruth (s t : St) : St := { t with rawL := s.rawL, rawR := s.rawR, rawP := s.rawP }
+
+def renderHtlcs (l : List Htlc) : String :=
+  ",".intercalate ((l.mergeSort fun a b =>
+      if a.incoming != b.incoming then !a.incoming
+      else if a.index != b.index then a.index < b.index else a.outputIndex ≤ b.outputIndex).map fun h =>
+    s!"{if h.incoming then "i" else "o"}{h.index}@{h.outputIndex}/{h.refundTimeout}/{h.hash}/{h.amt}")
+
+def renderSet (h : HtlcSet) : String := renderHtlcs (h.outgoing ++ h.incoming)
 
 def mismatch (s : St) (detail : String) : IO St := do
   IO.println s!"MISMATCH case={s.caseId} line={s.lines} {detail}"
@@ -403,18 +430,22 @@ def parseHtlc (ws : List String) : Option (String × Htlc) := do
   return (set, { index := idx, incoming := inc == 1, amt := amt, refundTimeout := exp,
                  outputIndex := out, hash := hash })
 
-def mkResolutions (resIn resOut : List Int) (breach : Bool) : Resolutions :=
+def mkResolutions (resIn resOut : List Int) (breach : Bool) (commit anchor : Bool := false) :
+    Resolutions :=
   { inOuts := resIn.map fun o => (o % (U32 : Int)).toNat,
-    outOuts := resOut.map fun o => (o % (U32 : Int)).toNat, breach := breach }
+    outOuts := resOut.map fun o => (o % (U32 : Int)).toNat, breach := breach,
+    commit := commit, anchor := anchor }
 
 def closeEvOf (s : St) (ws : List String) : Option (CloseEv × Option SetKey) :=
   let evh := (kvNat? ws "evh").getD 0
   let resIn := parseIntList ((kv? ws "resin").getD "-")
   let resOut := parseIntList ((kv? ws "resout").getD "-")
+  let cm := kvNat? ws "commit" == some 1
+  let an := kvNat? ws "anchor" == some 1
   match kv? ws "ev" with
-  | some "local" => some (.localForce ⟨.loc, s.sets⟩ (mkResolutions resIn resOut false) evh, some .loc)
-  | some "remote" => some (.remoteForce ⟨.rem, s.sets⟩ (mkResolutions resIn resOut false) evh, some .rem)
-  | some "pending" => some (.remoteForce ⟨.pend, s.sets⟩ (mkResolutions resIn resOut false) evh, some .pend)
+  | some "local" => some (.localForce ⟨.loc, s.sets⟩ (mkResolutions resIn resOut false cm an) evh, some .loc)
+  | some "remote" => some (.remoteForce ⟨.rem, s.sets⟩ (mkResolutions resIn resOut false cm an) evh, some .rem)
+  | some "pending" => some (.remoteForce ⟨.pend, s.sets⟩ (mkResolutions resIn resOut false cm an) evh, some .pend)
   | some "breach" => some (.breach ⟨.rem, s.sets⟩ (mkResolutions [] [] true) evh, none)
   | some "coop" => some (.coop evh, none)
   | _ => none
@@ -454,16 +485,21 @@ def step (s : St) (line : String) : IO St := do
     chk s "faildangling" 7
   | "CASE" :: id :: rest =>
     let kind := (kv? rest "kind").getD ""
+    if kind == "watcher-skip" then
+      IO.println s!"MISMATCH case={id} line={s.lines} harness could not build the channel state for a watcher case"
+      return { s with mismatches := s.mismatches + 1, caseId := id, kind := kind }
     let fc := match kv? rest "fcerr" with
       | some "dataloss" => FcErr.dataLoss | some "other" => .other | _ => .none
     let s := { s with caseId := id, kind := kind, dout := (kvNat? rest "dout").getD 0,
                       din := (kvNat? rest "din").getD 0, grace := kvNat? rest "grace" == some 1,
                       ppresent := kvNat? rest "ppresent" == some 1, fcErr := fc,
                       rawL := [], rawR := [], rawP := [], fwd := [], pre := [],
+                      dumpL := [], dumpR := [], dumpP := [], spent := none,
+                      watcherCases := s.watcherCases + (if kind == "watcher" then 1 else 0),
                       arb := { fcErr := fc }, lastH := 0, implState := "D", pathFails := [],
                       broadcastStep := false, cases := s.cases + 1,
                       unitCases := s.unitCases + (if kind == "unit" then 1 else 0),
-                      arbCases := s.arbCases + (if kind == "arb" then 1 else 0) }
+                      arbCases := s.arbCases + (if kind == "arb" || kind == "watcher" then 1 else 0) }
     return s
   | "H" :: rest =>
     match parseHtlc rest with
@@ -471,11 +507,62 @@ def step (s : St) (line : String) : IO St := do
     | some ("R", h) => return { s with rawR := s.rawR ++ [h] }
     | some ("P", h) => return { s with rawP := s.rawP ++ [h] }
     | _ => mismatch s s!"unparsed H line: {line.take 80}"
+  | "D" :: rest =>
+    match parseHtlc rest with
+    | some ("L", h) => return { s with dumpL := s.dumpL ++ [h] }
+    | some ("R", h) => return { s with dumpR := s.dumpR ++ [h] }
+    | some ("P", h) => return { s with dumpP := s.dumpP ++ [h] }
+    | _ => mismatch s s!"unparsed D line: {line.take 80}"
+  | "WSPEND" :: rest =>
+    let spent := (kv? rest "spent").bind parseKey
+    let sub := (kv? rest "sub").getD "?"
+    let key := (kv? rest "key").getD "?"
+    let mut s := { s with spent := spent }
+    match spent with
+    | none => mismatch s "WSPEND without spent commitment"
+    | some k =>
+      s := { s with watcherSpentLocal := s.watcherSpentLocal + (if k == .loc then 1 else 0),
+                    watcherSpentRemote := s.watcherSpentRemote + (if k == .rem then 1 else 0),
+                    watcherSpentPending := s.watcherSpentPending + (if k == .pend then 1 else 0) }
+      -- (X) the model's chain watcher
+      let cc : ChanCommits := { loc := s.dumpL, rem := s.dumpR,
+                                pend := if s.ppresent then some s.dumpP else none }
+      let (msub, mkey) := match commitSetOfSpend cc k with
+        | some (.localUnilateral, cs) => ("local", keyName cs.key)
+        | some (.remoteUnilateral, cs) => ("remote", keyName cs.key)
+        | none => ("none", "none")
+      let ikey := match key with | "L" => "local" | "R" => "remote" | "P" => "pending" | o => o
+      if msub != sub || mkey != ikey then
+        s ← mismatch s s!"watcher: model dispatches sub={msub} key={mkey}, impl sub={sub} key={ikey}"
+      -- (S) the subscription and the ConfCommitKey name the commitment that was really spent
+      let wantSub := if k == .loc then "local" else "remote"
+      if sub != wantSub then
+        s ← monitor s "watcher-subscription" s!"spent={keyName k} commitment but the {sub} close event fired"
+      if ikey != keyName k then
+        s ← monitor s "watcher-confcommitkey" s!"spent={keyName k} commitment but CommitSet.ConfCommitKey={ikey}"
+      return s
   | ["FWD", l] => return { s with fwd := parseNatList l }
   | ["PRE", l] =>
     let s := { s with pre := parseNatList l }
-    let s := if s.wf then { s with wellFormedCases := s.wellFormedCases + 1 }
+    let mut s := if s.wf then { s with wellFormedCases := s.wellFormedCases + 1 }
              else { s with malformedCases := s.malformedCases + 1 }
+    if s.kind == "watcher" then
+      -- the dispatched CommitSet carries exactly the HTLC sets of the channel state
+      let cc : ChanCommits := { loc := s.dumpL, rem := s.dumpR,
+                                pend := if s.ppresent then some s.dumpP else none }
+      let msets := match commitSetOfSpend cc .loc with
+        | some (_, cs) => cs.sets | none => {}
+      let pairs := [("local", msets.loc, s.sets.loc, s.dumpL, s.rawL),
+                    ("remote", msets.rem, s.sets.rem, s.dumpR, s.rawR),
+                    ("pending", msets.pend, s.sets.pend, s.dumpP, s.rawP)]
+      for (nm, m, i, d, r) in pairs do
+        if renderSet m != renderSet i then
+          s ← mismatch s s!"watcher: CommitSet.HtlcSets[{nm}] model={renderSet m} impl={renderSet i}"
+        if renderHtlcs d != renderHtlcs r then
+          s ← monitor s "watcher-commitset" s!"CommitSet.HtlcSets[{nm}]={renderHtlcs r} but the channel state had {renderHtlcs d}"
+      if renderHtlcs (Mon.outs s.dumpL) != renderHtlcs (Mon.outs s.dumpR) ||
+         (s.ppresent && renderHtlcs s.dumpR != renderHtlcs s.dumpP) then
+        s := { s with watcherDiffering := s.watcherDiffering + 1 }
     return s
   | ["END"] =>
     if s.samples < 4 && s.kind == "arb" && s.pathFails.length > 0 then
@@ -547,7 +634,11 @@ def step (s : St) (line : String) : IO St := do
     let m1 := renderActions (construct s.env key s.sets height tr true)
     let s := if impl != "-" then { s with nonEmptyMaps := s.nonEmptyMaps + 1, nontrivial := s.nontrivial + 1 } else s
     let s ← cmp2 s "construct" impl m0 m1
-    unitMonitorConstruct s key (tr != .chain) impl
+    if s.kind == "watcher" then
+      match s.spent with
+      | some k => return s.untruth (← unitMonitorConstruct s.truth k (tr != .chain) impl)
+      | none => return s
+    else unitMonitorConstruct s key (tr != .chain) impl
   | "start" :: rest | "block" :: rest | "user" :: rest =>
     let s := { s with ops := s.ops + 1 }
     let opName := ws.headD ""
@@ -591,13 +682,13 @@ def step (s : St) (line : String) : IO St := do
         if fc != 1 then
           s ← monitor s "user-force-close" s!"user request in StateDefault: ForceCloseChan called {fc} times"
       else
-        if mustGo s height then
+        if mustGo s.truth height then
           s := { s with mustGoChecks := s.mustGoChecks + 1 }
           if fc == 0 then
             s ← monitor s "onchain-late" s!"height={height}: an HTLC on the local commitment is within its broadcast delta but ForceCloseChan was not called"
-        else if wrapOnly s height then
+        else if wrapOnly s.truth height then
           s := { s with wrapSkipped := s.wrapSkipped + 1 }
-        if !mayGo s height then
+        if !mayGo s.truth height then
           s := { s with noGoChecks := s.noGoChecks + 1 }
           if fc != 0 then
             s ← monitor s "onchain-unclaimable" s!"height={height}: ForceCloseChan called although no offered HTLC and no claimable received HTLC is near expiry"
@@ -613,7 +704,12 @@ def step (s : St) (line : String) : IO St := do
                       confAfterBroadcast := s.confAfterBroadcast + (if preState == "CB" || preState == "BC" then 1 else 0) }
         let resIn := parseIntList ((kv? rest "resin").getD "-")
         let resOut := parseIntList ((kv? rest "resout").getD "-")
-        s ← confMonitor s k preState opFails finals res resIn resOut
+        if s.kind == "watcher" then
+          -- judged w.r.t. the commitment that really confirmed and its real HTLC set
+          let k' := s.spent.getD k
+          s := s.untruth (← confMonitor s.truth k' preState opFails finals res resIn resOut)
+        else
+          s ← confMonitor s k preState opFails finals res resIn resOut
     | some (.breach .., none) =>
       s := { s with breaches := s.breaches + 1 }
       if implSt == "WFR" && wf then
@@ -668,5 +764,10 @@ def main : IO Unit := do
   IO.println s!"STAT remote_copies_disagree_hits={s.orderDependentHits}"
   IO.println s!"STAT prebroadcast_dust_fail_with_output_on_confirmed={s.preBroadcastFailWithOutput}"
   IO.println s!"STAT breach_duplicate_fails={s.breachDuplicateFails}"
+  IO.println s!"STAT watcher_cases={s.watcherCases}"
+  IO.println s!"STAT watcher_spent_local={s.watcherSpentLocal}"
+  IO.println s!"STAT watcher_spent_remote={s.watcherSpentRemote}"
+  IO.println s!"STAT watcher_spent_pending={s.watcherSpentPending}"
+  IO.println s!"STAT watcher_commitments_differ={s.watcherDiffering}"
   IO.println s!"STAT mismatches={s.mismatches}"
   IO.println s!"STAT monitor_failures={s.monitorFails}"
